@@ -226,7 +226,16 @@ StartChain(i) ==
               cm == IF s.changed THEN << MaxOf({ s.ch[k].ord : k \in DOMAIN s.ch }), IF extra THEN cc + 1 ELSE cc >> ELSE <<>>
               p == IF nm # 0 THEN Prefix(s.t, s.ch, nm, nd, cm)
                    ELSE [t |-> s.t, ch |-> s.ch, how |-> "no-prefix", err |-> ""]
-          IN  [t |-> p.t \o p.ch, members |-> members, how |-> <<s.how, p.how>>, err |-> p.err,
+              \* which branch of the dispatch this chain took (coverage of the replayed point sets is asked per family)
+              disp == IF fi0 = 0 /\ nm0 = 0 THEN "no-neighbour"
+                      ELSE IF nm0 = 0 THEN "suffix-only"
+                      ELSE IF fi0 = 0 THEN "prefix-only"
+                      ELSE IF fi0 = nm0
+                           THEN (IF Len(ch0) = 1 THEN "single-same-target" ELSE "multi-same-target")
+                                \o (IF MaxOrd(tr, tr[RowIdx(tr, fi0)].obj) = 1 THEN "+orphan" ELSE "")   \* target is a chain of one
+                      ELSE IF same THEN "same-chain"
+                      ELSE "two-sided"
+          IN  [t |-> p.t \o p.ch, members |-> members, how |-> <<disp, s.how, p.how>>, err |-> p.err,
                ccnext |-> IF extra THEN cc + 2 ELSE cc + 1]
 
 AInit == /\ inst \in Instances
@@ -280,6 +289,11 @@ AlgoRecord == [n |-> N, links |-> inst.links,
 EmitAlgo == (~ADone) \/ PrintT(<<"ALGO", ToJson(AlgoRecord)>>)
 \* only the runs whose final table breaks the predicate (searches over large instance families)
 EmitAlgoBad == (~ADone) \/ AlgoClause = "none" \/ PrintT(<<"ALGO", ToJson(AlgoRecord)>>)
+\* ... plus the runs that go through one of the rarer dispatch branches (inputs for the branch-coverage replays)
+RareDispatch == {"single-same-target", "multi-same-target", "single-same-target+orphan", "multi-same-target+orphan",
+                 "same-chain", "two-sided"}
+EmitAlgoCover == (~ADone) \/ (AlgoClause = "none" /\ \A k \in DOMAIN log : log[k][1] \notin RareDispatch)
+                          \/ PrintT(<<"ALGO", ToJson(AlgoRecord)>>)
 
 -----------------------------------------------------------------------------
 (* 2. reference builder: the same variables, no algorithmic choices - start a chain or extend the last one along
